@@ -104,7 +104,7 @@ class Agent:
                 if hit:
                     self.mut_count += 1
                     if self.record_mut:
-                        self.mut_log.append((event, p, _s(args[1]) if len(args) > 1 else None))
+                        self.mut_log.append((event, p, _s(args[1]) if len(args) > 1 else None, args[2] if event == "open" and len(args) > 2 and isinstance(args[2], int) else None))
                     if self.crash_at is not None and self.mut_count == self.crash_at:
                         os._exit(137)
             if mut and self.delay_ms and isinstance(a0, str):
